@@ -48,6 +48,14 @@ PROPS = {
         rule='listener histories as C13; 4-16 goroutines × 6000-21000 round-robin selections with concurrent peer counter updates; 8 goroutines re-evaluating 160-200 matcher cases (incl. well-formed OpenVPN tls-auth resets on one matcher instance); non-trivial = history completed',
         assumptions=['a race needs the two accesses to actually overlap in a run to be reported by the detector'],
     ),
+    "C07": dict(
+        lean_modules=["L4.Props.C07", "L4.Expect.C07"],
+        stages=[dict(name="hello", pkg="./modules/l4tls/", test="TestVerifTLS", files=["modules/l4tls/verif_common_test.go", "modules/l4tls/verif_tls_test.go"], nq=600, nt=20000)],
+        level_text="Kernel-checked: for every well-formed extension block (server_name, ALPN, supported_versions, supported_groups and unknown extensions in any order, at most one host name, no trailing dot) the Lean model of parseRawClientHello's extension loop — which mirrors all sixteen extension cases and every early return — reads back exactly what a reference encoder written from RFC 8446/6066/7301 put in; the legacy-version fallback table; records that are not a handshake never match and an incomplete record is never decided; ALPN matching = some configured protocol is offered. The model is tied to the real parser by a field-level differential over hellos of crypto/tls clients (fresh, TLS 1.2 ticket resumption, TLS 1.3 PSK resumption) and byte-level mutations of them; for every unmutated hello the parser's server name, ALPN list, versions, cipher suites and curves are compared with the tls.ClientHelloInfo that Go's TLS server reports for the same bytes, and the matcher verdict, the {l4.tls.server_name} placeholder, the alpn sub-matcher, proper prefixes (undecided) and non-handshake record types are judged through the public Match.",
+        level_note="Trusted: Lean kernel, harness + driver, crypto/tls (oracle for agreement, not modelled), golang.org/x/crypto/cryptobyte (its reads are re-stated in Lean and compared by the differential). Partial: the parse∘encode theorem covers the extension block, not the fixed hello prefix (random, session id, suites, compression: differential only) and not the other eleven extension kinds' payloads (mirrored for control flow, differential only); hellos fragmented over several records are outside what Go clients emit.",
+        rule='hellos from crypto/tls clients over 6 server names × 5 ALPN lists × 5 version ranges × 3 curve preferences × session cache, resumption hellos after a full in-process handshake (TLS 1.2 ticket, TLS 1.3 PSK), and 6 kinds of byte-level mutation (bit flip, byte overwrite, truncation, extension, dot injection, swap) with the record length fixed up; non-trivial = parser output with at least one extension; distinct = distinct outputs',
+        assumptions=['GetConfigForClient of a crypto/tls server reports the hello as the terminating server sees it'],
+    ),
     "C09": dict(
         lean_modules=["L4.Props.C09", "L4.Expect.C09"],
         stages=[dict(name="udp", pkg="./layer4/", test="TestVerifUDP", files=L4 + ["layer4/verif_udp_test.go"], nq=24, nt=400, lean=False)],
